@@ -244,12 +244,12 @@ def split_output(text):
 
 def run_watched(cmd, outfile, timeout, envx=None):
     """Run vdrive; kill it when the whole shard exceeds `timeout` or when its output file has not grown for
-    VERIF_STALL_S seconds (default 60): vdrive flushes at the start and the end of every case, so a silent output means
-    one case is hanging (a spinning or dead-locked implementation) - reported as HANG for that case."""
+    VERIF_STALL_S seconds (default 90; the heartbeat file <out>.hb, written by harness-owned wait loops, counts as
+    output): vdrive flushes at the start and the end of every case, so a silent output means one case is hanging (a spinning or dead-locked implementation) - reported as HANG for that case."""
     e = dict(os.environ)
     if envx:
         e.update(envx)
-    stall = float(os.environ.get('VERIF_STALL_S', '60'))
+    stall = float(os.environ.get('VERIF_STALL_S', '90'))
     p = subprocess.Popen(cmd, env=e, stdout=subprocess.PIPE, stderr=subprocess.PIPE, text=True)
     t0 = time.time()
     last_size, last_change = -1, t0
@@ -261,10 +261,12 @@ def run_watched(cmd, outfile, timeout, envx=None):
         except subprocess.TimeoutExpired:
             pass
         now = time.time()
-        try:
-            sz = os.path.getsize(outfile)
-        except OSError:
-            sz = -1
+        sz = 0
+        for f in (outfile, outfile + '.hb'):
+            try:
+                sz += os.path.getsize(f)
+            except OSError:
+                pass
         if sz != last_size:
             last_size, last_change = sz, now
         if now - t0 > timeout or now - last_change > stall:
